@@ -178,11 +178,11 @@ def gen_value(rng, spec, n=None):
     if k == 'I':
         return int(rng.integers(-4, 5))
     if k == 'U':
-        return 'rad'
+        return ['rad', 'deg'][rng.integers(2)]
     if k == 'UPOS':
-        return 'rad'
+        return ['rad', 'deg'][rng.integers(2)]
     if k == 'O':
-        return 'zyx'
+        return ['zyx', 'xyz', 'yxz', 'vehicle', 'arm', 'camera'][rng.integers(6)]
     if k == 'LIT':
         return spec[1]
     if k == 'NONE':
